@@ -43,7 +43,7 @@ func (e *engine) Run(env *core.Env, run int, res *core.Result) *core.Violation {
 	env.J.Done()
 
 	res.Steps += int64(s.step)
-	res.SimNs += int64(s.maxTicks()) * 100e6 // one tick = 100 ms notional
+	res.SimNs += float64(s.maxTicks()) * 100e6 // one tick = 100 ms notional
 	// map order is irrelevant here: addition commutes
 	for k, v := range s.faults {
 		res.Fault(k, v)
